@@ -4,6 +4,7 @@ import LunarVerif.Spec.C09
 Driver for C09: `lvdriver_c09 run` (model answers) / `lvdriver_c09 judge` (Spec on impl answers).
 
 ops:
+  wiring hasher=identity|md5      (first op of a case only; default identity = production)        → ok
   remedy id=<n> name=<enc> allowed=<int> win=<sec> status=<int> spill=<0|1> renew=<int>
          [hdr=<enc> | nohdr] [default=<enc>] [dpct=<n>/<d>] [g=<encval>&<n>/<d>]...     → ok
   req id=<n> t=<ns> [h=<encname>&<encval>]...              → noop | early <status> | err:<class> | panic
@@ -91,10 +92,22 @@ def fmtCounters (cs : List (Key × Nat)) : String :=
 structure RunSt where
   tbl : Tbl := {}
   st : State Key := []
+  identity : Bool := true    -- plugin wiring: identity obfuscator (production) unless `wiring hasher=md5`
+  started : Bool := false    -- an op of this case was already seen (`wiring` must be the first)
 
-def runStep (s : RunSt) (line : String) : RunSt × String :=
+def parseWiring (ws : List String) : Option Bool :=
+  match kv ws "hasher" with
+  | some "identity" => some true
+  | some "md5" => some false
+  | _ => none
+
+def runStep1 (s : RunSt) (line : String) : RunSt × String :=
   match words line with
   | ["case", id] => ({}, s!"case {id}")
+  | "wiring" :: ws =>
+    match parseWiring ws, s.started with
+    | some b, false => ({ s with identity := b }, "ok")
+    | _, _ => (s, "bad-op")
   | "remedy" :: ws =>
     match parseRemedy ws with
     | some (id, r) => ({ s with tbl := s.tbl.put id r }, "ok")
@@ -103,8 +116,9 @@ def runStep (s : RunSt) (line : String) : RunSt × String :=
     match kvNat ws "id", kvNat ws "t", parseHdrs (kvAll ws "h") with
     | some id, some t, some hs =>
       match s.tbl.get id with
-      | some r =>
-        let (st', a) := pluginStep capFloat s.st r hs t
+      | some r0 =>
+        let r := { r0 with identityHash := s.identity }
+        let (st', a) := pluginStep capUnits s.st r hs t
         ({ s with st := st' }, fmtAnswer a)
       | none => (s, "bad-op")
     | _, _, _ => (s, "bad-op")
@@ -114,7 +128,8 @@ def runStep (s : RunSt) (line : String) : RunSt × String :=
     | some id, some t, some n, some par, some hs, some alts =>
       if n > 4096 || par < 1 || par > 256 then (s, "bad-op") else
       match s.tbl.get id with
-      | some r =>
+      | some r0 =>
+        let r := { r0 with identityHash := s.identity }
         -- n requests at one instant (request j carries alternative j % len): every interleaving gives the
         -- same counts per key; the model takes them in index order
         let na := alts.length
@@ -125,7 +140,7 @@ def runStep (s : RunSt) (line : String) : RunSt × String :=
             State Key × Nat × Nat × Nat × List Nat × List Nat
           | 0, _, st, np, nb, no, pa, ba => (st, np, nb, no, pa, ba)
           | k + 1, j, st, np, nb, no, pa, ba =>
-            let (st', a) := pluginStep capFloat st r (hdrsOf j) t
+            let (st', a) := pluginStep capUnits st r (hdrsOf j) t
             let ai := if na == 0 then 0 else j % na
             match a with
             | .noop => go k (j + 1) st' (np + 1) nb no (bump pa ai) ba
@@ -145,10 +160,18 @@ def runStep (s : RunSt) (line : String) : RunSt × String :=
     | none => (s, "bad-op")
   | _ => (s, "bad-op")
 
+def runStep (s : RunSt) (line : String) : RunSt × String :=
+  let (s', out) := runStep1 s line
+  match words line with
+  | ["case", _] => (s', out)
+  | _ => ({ s' with started := true }, out)
+
 structure JudgeSt where
   tbl : Tbl := {}
-  hist : List (Event Key) := []   -- most recent first
+  hist : List (Event PKey) := []   -- most recent first; both identities of every limiter event
   bad : Option String := none
+  identity : Bool := true
+  started : Bool := false
 
 def parseAnswer (out : String) : Option Answer :=
   match words out with
@@ -158,8 +181,12 @@ def parseAnswer (out : String) : Option Answer :=
   | [w] => if w.startsWith "err:" then some (.err (w.drop 4).toString) else none
   | _ => none
 
-def judgeStep (s : JudgeSt) (op out : String) : JudgeSt :=
+def judgeStep1 (s : JudgeSt) (op out : String) : JudgeSt :=
   match words op with
+  | "wiring" :: ws =>
+    match parseWiring ws, s.started with
+    | some b, false => { s with identity := b }
+    | _, _ => s
   | "remedy" :: ws =>
     match parseRemedy ws with
     | some (id, r) => { s with tbl := s.tbl.put id r }
@@ -169,7 +196,8 @@ def judgeStep (s : JudgeSt) (op out : String) : JudgeSt :=
     | some id, some t, some hs =>
       match s.tbl.get id with
       | none => s
-      | some r =>
+      | some r0 =>
+        let r := { r0 with identityHash := s.identity }
         match parseAnswer out with
         | none => { s with bad := s.bad <|> some ("unparsable-answer:" ++ pctEnc out) }
         | some a =>
@@ -178,7 +206,7 @@ def judgeStep (s : JudgeSt) (op out : String) : JudgeSt :=
           let p : PReq := ⟨r, hs, t⟩
           if !answerOk p a then
             { s with bad := s.bad <|> some s!"answer-not-as-configured t={t} got={pctEnc out} rejection-status={effStatus r}" }
-          else match observe1 p a with
+          else match observe1P p a with
             | some e => { s with hist := e :: s.hist }
             | none => s   -- default behaviour / nil GroupBy / missing limiter id / zero window: no limiter event
     | _, _, _ => s
@@ -187,7 +215,8 @@ def judgeStep (s : JudgeSt) (op out : String) : JudgeSt :=
     | some id, some t, some hs, some alts =>
       match s.tbl.get id with
       | none => s
-      | some r =>
+      | some r0 =>
+        let r := { r0 with identityHash := s.identity }
         let ows := words out
         let nums (k : String) : Option (List Nat) :=
           (kv ows k).bind fun v => (v.splitOn ",").mapM String.toNat?
@@ -213,8 +242,8 @@ def judgeStep (s : JudgeSt) (op out : String) : JudgeSt :=
             if !okAll then
               { s with bad := s.bad <|> some s!"burst-answers-not-as-configured t={t} got={pctEnc out} rejection-status={effStatus r}" }
             else
-              let passes := gs.flatMap fun (p, gp, _) => (List.replicate gp (observe1 p .noop)).filterMap (fun x => x)
-              let blocks := gs.flatMap fun (p, _, gb) => (List.replicate gb (observe1 p rej)).filterMap (fun x => x)
+              let passes := gs.flatMap fun (p, gp, _) => (List.replicate gp (observe1P p .noop)).filterMap (fun x => x)
+              let blocks := gs.flatMap fun (p, _, gb) => (List.replicate gb (observe1P p rej)).filterMap (fun x => x)
               { s with hist := blocks ++ passes ++ s.hist }   -- most recent first: rejections are the latest
         | _, _, _, _ => { s with bad := s.bad <|> some ("unparsable-answer:" ++ pctEnc out) }
     | _, _, _, _ => s
@@ -232,17 +261,22 @@ def dedupKeys : List Key → List Key → List Key
   | [], acc => acc.reverse
   | k :: ks, acc => if acc.contains k then dedupKeys ks acc else dedupKeys ks (k :: acc)
 
+def judgeStep (s : JudgeSt) (op out : String) : JudgeSt :=
+  { judgeStep1 s op out with started := true }
+
 def judgeFinish (s : JudgeSt) : String :=
   match s.bad with
   | some b => s!"fail - {b}"
   | none =>
-    let h := s.hist.reverse
+    let hP := s.hist.reverse
+    -- groups as the allocation table distinguishes them (theorem `plugin_spec_holds_groups_partial`)
+    let h := hP.map (rekey (·.spec))
     if holds capExact h then "ok"
     else
       let keys := dedupKeys (h.map (·.key)) []
       let failing := keys.filter fun k => !holdsKeyRev capExact (keyHist k h)
-      -- keys are independent (theorem `projection`): classify each failing key on its own history
-      let cls := failing.map fun k => (k, finding capFloat (h.filter (fun e => e.key == k)))
+      -- groups are independent (theorem `projection`): classify each failing group on its own history
+      let cls := failing.map fun k => (k, findingP hP k)
       let fid := if cls.any (·.2.isNone) then "-" else
         match cls with
         | (_, some f) :: _ => f
@@ -254,13 +288,13 @@ def judgeFinish (s : JudgeSt) : String :=
       | none => s!"fail {fid} spec-violated"
       | some k =>
         match firstBad capExact (keyHist k h) with
-        | none => s!"fail {fid} spec-violated key={fmtKey k}"
+        | none => s!"fail {fid} spec-violated group={fmtKey k}"
         | some (e, older) =>
           let n := passesInWin e.wd.W (e.t / e.wd.W) (regime e older)
           let c := capExact (e.wd.allowed + refSpill (e :: older)) e.wd.ratio
-          let cf := capFloat (e.wd.allowed + refSpill (e :: older)) e.wd.ratio
+          let cf := capUnits (e.wd.allowed + refSpill (e :: older)) e.wd.ratio
           let v := if e.pass then "pass" else "block"
-          s!"fail {fid} key={fmtKey k} t={e.t} window={e.t / e.wd.W} W={e.wd.W} passed-before={n} cap={c} float-cap={cf} verdict={v}"
+          s!"fail {fid} group={fmtKey k} t={e.t} window={e.t / e.wd.W} W={e.wd.W} passed-before={n} cap={c} impl-cap={cf} verdict={v}"
 
 def main (args : List String) : IO Unit :=
   match args with
